@@ -246,6 +246,8 @@ def rig_fuzz(chk, tier, seed, items):
         st[target] = {"execs": r["execs"], "crashes": len(r["crashes"])}
         chk.seen(r["execs"])
         chk.distinct.add("fuzz:" + target)
+        for w in r["inconclusive"]:
+            chk.inconc(w)
         for sig, art, se in r["crashes"]:
             chk.violation(sig, "libFuzzer target %s crashed on input %s : %s" % (target, art[:200], se[-300:].replace("\n", " | ")),
                           {"rig": "fuzz", "target": target, "input": art})
